@@ -72,7 +72,9 @@ def prop(case, rec):
         raise Violation('first_pass_sequence', f'the first pass read {len(r.passes[0])} passwords, the list holds {len(occurrences)} valid occurrences '
                         f'(spelling {case.get("spelling", "plain")})', case)
     N = len(occurrences)
-    per_level = Counter(find_omen_level(r.omen_trainer, p) for p in occurrences)
+    # the level of a training password by the independent level function over the tables the guesser loads (C11 ties it to the
+    # trainer's own find_omen_level; using that one here would let a defect in it hide itself)
+    per_level = Counter(omen_ref.level_of(gm, p) for p in occurrences)
     # the probability relation needs no enumeration: it is checked for EVERY listed level against the saved keyspace
     unparseable = per_level.get(-1, 0)
     for L in sorted(saved_ks):
@@ -174,6 +176,14 @@ def cases(draw):
             continue
         seen.add(p)
         entries.append([p, draw(st.sampled_from([1, 1, 2, 3, 6]))])
+    if draw(st.integers(0, 4)) == 0:
+        # very repetitive passwords at and around the maximum length the OMEN trainer looks at (21): they get a listed level
+        ch = letters[0]
+        for ln_, c_ in ((21, draw(st.sampled_from([1, 3, 6]))), (20, draw(st.sampled_from([0, 1, 2]))), (22, draw(st.sampled_from([0, 1])))):
+            if c_:
+                entries.append([ch * ln_, c_])
+        if draw(st.booleans()):
+            entries.append([ch * 20 + letters[1], 1])
     return {'entries': entries, 'ngram': ngram, 'alphabet_size': draw(st.sampled_from([100, 100, 3, 2])), 'spelling': draw(st.sampled_from(trainer.SPELLINGS))}
 
 
